@@ -132,9 +132,20 @@ func init() {
 				cfg.PJoin, cfg.PLeave, cfg.MaxJoins, cfg.MaxLeaves = 0, 0, 0, 0
 				cfg.PSubmit = 0.25
 			}
+			if r2 := NewRNG(Mix(r.U64(), 0x64656570)); r2.Bool(0.15) {
+				// a synthetic history whose longest election survives one or two coin
+				// rounds (coin bits ground), then fair gossip among all validators:
+				// everything created before must have been committed by every view
+				cfg.Synthetic = true
+				cfg.Variants = 2
+			}
 			return cfg
 		},
 		run: func(c *Cluster, spec *runSpec) {
+			if c.cfg.Synthetic {
+				c.synthRun(spec)
+				return
+			}
 			c.finalHook = c.checkC06
 			clusterRun(c, spec)
 		},
